@@ -124,6 +124,15 @@ def run(ck):
     ck.ob('MPT-all-interactions', mod.loc(il), u(il.iter) == '{0}.sort_interactions({0}.interactions)'.format(mparam),
           'the section loop covers every interaction type of the molecule (`{}`)'.format(u(il.iter)), key='MPT-all-interactions|types')
     nvar = u(il.target)
+    # the section name written to the file: the loop variable itself (overwritten for impropers), or a separate local that is 'dihedrals' for
+    # impropers and the interaction type otherwise -- either way it equals 'virtual_sitesn' exactly when the type does
+    svar = nvar
+    sdefs_ = [(s_, c_) for s_, c_, _e in stmts_with_env(w, lambda s_: isinstance(s_, ast.Assign) and isinstance(s_.targets[0], ast.Name) and try_fold(s_.value) == 'dihedrals', stmts=il.body)]
+    if len(sdefs_) == 1 and u(sdefs_[0][0].targets[0]) != nvar:
+        cand = u(sdefs_[0][0].targets[0])
+        others = [(s_, c_) for s_, c_, _e in stmts_with_env(w, lambda s_: isinstance(s_, ast.Assign) and u(s_.targets[0]) == cand and s_ is not sdefs_[0][0], stmts=il.body)]
+        if len(others) == 1 and u(others[0][0].value) == nvar and flow.equivalent(others[0][1], flow.NOT(sdefs_[0][1]))[0]:
+            svar = cand
     # sort/groupby agreement
     srt = [c for c in ast.walk(il) if isinstance(c, ast.Call) and call_name(c) == 'sorted']
     grp = [c for c in ast.walk(il) if isinstance(c, ast.Call) and call_name(c) in ('itertools.groupby', 'groupby')]
@@ -183,7 +192,7 @@ def run(ck):
         vs_ok = False
         for st, c, e in conds:
             if u(st.value) == '[atoms[0], parameters] + atoms[1:]':
-                vs_ok = flow.equivalent(c, ('atom', ('Eq', "'virtual_sitesn'", nvar)))[0] or flow.equivalent(c, ('atom', ('Eq', nvar, "'virtual_sitesn'")))[0]
+                vs_ok = any(flow.equivalent(c, ('atom', ('Eq', "'virtual_sitesn'", v_)))[0] or flow.equivalent(c, ('atom', ('Eq', v_, "'virtual_sitesn'")))[0] for v_ in {nvar, svar})
         ck.ob('TAB-sections', mod.loc(lw[0]), forms == sorted(['[atoms[0], parameters] + atoms[1:]', 'atoms + [parameters]']) and vs_ok and "' '.join(to_join)" in txt,
               'a line is atoms then parameters, except virtual_sitesn: first atom, function type/parameters, remaining atoms', key='TAB-sections|virtual_sitesn')
         pdef = single_def(w, 'parameters')
@@ -204,8 +213,8 @@ def run(ck):
               'never inside a field (`{}`{})'.format(txt[:70], '; field extended in place: ' + '; '.join(u(a)[:50] for a in aug + ext) if aug or ext else ''),
               key='TAB-sections|comment-last')
     # impropers -> dihedrals before the header
-    ren = stmts_with_env(w, lambda s: isinstance(s, ast.Assign) and u(s.targets[0]) == nvar and try_fold(s.value) == 'dihedrals', stmts=il.body)
-    hdr = [s for s in il.body if isinstance(s, ast.Expr) and call_attr(s.value) == 'write' and '[ {} ]' in u(s)]
+    ren = stmts_with_env(w, lambda s: isinstance(s, ast.Assign) and u(s.targets[0]) == svar and try_fold(s.value) == 'dihedrals', stmts=il.body)
+    hdr = [s for s in il.body if isinstance(s, ast.Expr) and call_attr(s.value) == 'write' and '[ {} ]' in u(s) and svar in u(s)]
     ok = len(ren) == 1 and len(hdr) == 1 and ren[0][0].lineno < hdr[0].lineno and \
         (flow.equivalent(ren[0][1], ('atom', ('Eq', "'impropers'", nvar)))[0] or flow.equivalent(ren[0][1], ('atom', ('Eq', nvar, "'impropers'")))[0])
     lookup = [s for s in il.body if isinstance(s, ast.Assign) and u(s.value) == '{}.interactions[{}]'.format(mparam, nvar)]
